@@ -15,6 +15,7 @@ from pandera.backends.base import (
     CoreParserResult,
 )
 from pandera.backends.pandas.error_formatters import (
+    _multiindex_to_frame,
     consolidate_failure_cases,
     format_generic_error_message,
     format_vectorized_error_message,
@@ -193,12 +194,16 @@ class PandasSchemaBackend(BaseSchemaBackend):
         for err in errors:
             index_values = err.failure_cases["index"]
             if isinstance(check_obj.index, pd.MultiIndex):
-                # MultiIndex values are saved on the error as strings so need to be cast back
-                # to their original types
-                index_tuples = err.failure_cases["index"].apply(eval)
-                index_values = pd.MultiIndex.from_tuples(index_tuples)
-
-            mask = ~check_obj.index.isin(index_values)
+                # MultiIndex values are saved on the error as the text of
+                # their tuples: rows are matched in that same rendering
+                labels = (
+                    _multiindex_to_frame(check_obj)
+                    .apply(tuple, axis=1)
+                    .astype(str)
+                )
+                mask = ~labels.isin(index_values).to_numpy()
+            else:
+                mask = ~check_obj.index.isin(index_values)
 
             check_obj = check_obj.loc[mask]
 
